@@ -144,6 +144,11 @@ func (inst *Instance) resolveInfo(a Addr) *AcctInfo {
 func (inst *Instance) Exec(ctx context.Context, op *Op) ([]Obs, error) {
 	inst.SetPlan(inst.planFor(op))
 	defer inst.SetPlan(nil)
+	return inst.ExecCtx(ctx, op)
+}
+
+// ExecCtx runs one operation without touching the fault plan (concurrent, fault-free use).
+func (inst *Instance) ExecCtx(ctx context.Context, op *Op) ([]Obs, error) {
 	creds := &checker.Credentials{Client: op.Client, IP: op.IP, RequestID: "vh"}
 	keyOf := func(a Addr) []byte {
 		if a.HasKey {
